@@ -28,7 +28,15 @@ class C09(Check):
     assumptions = ["HDF5-internal layout is not compared in r+ mode (byte equality there is only counted)"]
 
     def cfg(self, tier):
-        cfg = {"max_ops": 20}
+        # constructive prefix: an object with visual parameters, copied without its children, then the colour of the
+        # copy is edited (whatever the copy's visual parameters are, the source's stored node must not change)
+        visual = [{"op": "object", "cls": "Points", "parent": 0, "name": "p", "geom": {"n": 3, "g": [1, 2, 3, 4]}, "deferred": False},
+                  {"op": "visual", "obj": 0},
+                  {"op": "copy", "who": 0, "to": None, "children": False, "clear": False, "ws": 0, "twice": False,
+                   "again_after_remove": False, "again_after_pg_delete": False},
+                  {"op": "visual_edit", "obj": 1, "rgb": [200, 100, 50]},
+                  {"op": "visual_edit", "obj": 0, "rgb": [10, 20, 30]}]
+        cfg = {"max_ops": 20, "prefixes": [[], [], [], [], visual]}
         if tier == "thorough":
             cfg.update({"max_ops": 35, "object_classes": tree.F.OBJECT_CLASSES,
                         "group_classes": tree.F.GROUP_CLASSES})
